@@ -401,6 +401,15 @@ func init() {
 		},
 		Replay: func(c *core.Ctx, raw json.RawMessage) {
 			var lz c06LazyCase
+			if json.Unmarshal(raw, &lz) == nil && lz.Lazy == "split-agree" {
+				fmt.Printf("split-agree: FS=%q input %q\n", lz.FS1, lz.Input)
+				o := c06LazyRun(lz, `{ printf "%d", NF; for (i = 1; i <= NF; i++) printf "[%s]", $i; printf "\n"; n = split($0, A, FS); printf "%d", n; for (i = 1; i <= n; i++) printf "[%s]", A[i]; printf "\n" }`+"\n")
+				fmt.Print(o.Stdout, o.Err)
+				if l := strings.Split(strings.TrimSuffix(o.Stdout, "\n"), "\n"); len(l) == 2 && l[0] != l[1] {
+					c.Violation("record-model", "split-agree", "fields and split($0, A, FS) differ", l[1], l[0], lz)
+				}
+				return
+			}
 			if json.Unmarshal(raw, &lz) == nil && lz.Lazy != "" {
 				first, after := c06LazyPrograms(lz)
 				a, b := c06LazyRun(lz, first), c06LazyRun(lz, after)
